@@ -3,7 +3,7 @@
 confirmed ones under /verif/seeded/<id>/ (patch.diff, demo.cpp, meta.json).  Confirmation = with the change applied the library's
 own test suite still builds and passes, and the demonstration exits 0 without the change and non-zero with it."""
 import os, sys, json, subprocess, shutil, re
-V = '/verif'; MUT = '/tmp/mut'; WT = '/tmp/seedchk/wt'; BASE = 'c99aa9f'
+V = '/verif'; MUT = '/tmp/mut'; WT = '/tmp/seedchk/wt'; BASE = os.environ.get('VP_SEED_BASE', 'c99aa9f')   # m3 changes were written against /repo HEAD ee98e14: VP_SEED_BASE=ee98e14 VP_SEED_MS=m3
 def sh(cmd, **kw): return subprocess.run(cmd, shell=True, stdout=subprocess.PIPE, stderr=subprocess.STDOUT, text=True, **kw)
 os.makedirs('/tmp/seedchk', exist_ok=True)
 if not os.path.exists(WT): print(sh('git -C /repo worktree add --detach %s %s' % (WT, BASE)).stdout)
@@ -18,7 +18,7 @@ def build_run(demo, out, flags, args=''):
         return 'timeout', ''
 only = sys.argv[1:] 
 for prop in ['C%02d' % i for i in range(1, 21)]:
-    for m in ('m1', 'm2'):
+    for m in os.environ.get('VP_SEED_MS', 'm1,m2').split(','):
         sid = '%s_%s' % (prop, m)
         if only and sid not in only and prop not in only: continue
         patch = '%s/%s.out/%s.diff' % (MUT, prop, m); demo = '%s/%s.out/%s_demo.cpp' % (MUT, prop, m)
@@ -45,6 +45,7 @@ for prop in ['C%02d' % i for i in range(1, 21)]:
             meta.update({'confirmed': bool(tests_ok), 'demo_build': 'g++ -std=c++20 %s -I <worktree>/include demo.cpp' % flags, 'demo_exit_without_change': rc0, 'demo_exit_with_change': rc1,
                          'demo_output_with_change_tail': out1[-400:], 'existing_tests_pass_with_change': bool(tests_ok), 'tests_tail': r.stdout[-200:]})
         notes = '%s/%s.out/notes.md' % (MUT, prop)
+        if not os.path.exists(notes): notes = '%s/%s.out/%s_notes.md' % (MUT, prop, m)
         if os.path.exists(notes):
             txt = open(notes, errors='replace').read(); meta['agent_notes_excerpt'] = txt[:1800]
         # does it still apply to the current /repo HEAD (after the fix: commits)?
